@@ -749,6 +749,27 @@ func ruleCellFresh(c *Ctx) []Obligation {
 							report(s.Pos(), "element store into "+cont, cont, s.Rhs[i], fi.fd)
 						}
 					}
+					// append(sink, other...): all cells of another container are taken over
+					if call, ok := ast.Unparen(s.Rhs[i]).(*ast.CallExpr); ok {
+						if id, ok := call.Fun.(*ast.Ident); ok && id.Name == "append" && len(call.Args) == 2 && call.Ellipsis != token.NoPos && isCellSlice(info.TypeOf(call.Args[0])) && (isSink(call.Args[0]) || isSink(l)) {
+							cont, src := canon(call.Args[0]), canon(call.Args[1])
+							key := fmt.Sprintf("cell|%s|append of all cells to %s", fname, cont)
+							seen[key]++
+							if seen[key] > 1 {
+								key += fmt.Sprintf("#%d", seen[key])
+							}
+							o := Obligation{Key: key, Pos: c.Pos(call.Pos()), Nontrivial: true}
+							switch {
+							case src == cont || src == canon(l):
+								o.Status, o.Detail = Discharged, "re-appends cells of the same container"
+							case stagingLocal(src) || !valueStructFieldText(info, call.Args[1]):
+								o.Status, o.Detail = Discharged, "appends the cells of the local staging slice "+src+" (their freshness is decided where it is filled)"
+							default:
+								o.Status, o.Detail = Violated, fmt.Sprintf("appends all cells of %s to %s: the elements are now shared by two containers (a scalar assigned through one is changed in the other)", src, cont)
+							}
+							obs = append(obs, o)
+						}
+					}
 					// append
 					if call, ok := ast.Unparen(s.Rhs[i]).(*ast.CallExpr); ok {
 						if id, ok := call.Fun.(*ast.Ident); ok && id.Name == "append" && len(call.Args) >= 2 && isCellSlice(info.TypeOf(call.Args[0])) && call.Ellipsis == token.NoPos && (isSink(call.Args[0]) || isSink(l)) {
@@ -766,6 +787,16 @@ func ruleCellFresh(c *Ctx) []Obligation {
 	return obs
 }
 
+
+// valueStructFieldText: e (after * and parens) is a field selector or a local defined from one (a container of some value)
+func valueStructFieldText(info *types.Info, e ast.Expr) bool {
+	e = ast.Unparen(e)
+	if st, ok := e.(*ast.StarExpr); ok {
+		e = ast.Unparen(st.X)
+	}
+	_, ok := e.(*ast.SelectorExpr)
+	return ok
+}
 
 // lastSelName is the last selector component of an expression's text ("self.Values" → "Values").
 func lastSelName(s string) string {
